@@ -156,8 +156,7 @@ func (s *storeFlow) propagate() {
 
 func runC09(c *Ctx) {
 	p := c.P
-	sf := &storeFlow{p: p}
-	sf.propagate()
+	sf := getStoreFlow(p)
 	var pn []string
 	for prm := range sf.params {
 		pn = append(pn, FnName(prm.Parent())+"("+prm.Name()+")")
@@ -260,6 +259,12 @@ func runC09(c *Ctx) {
 	c.AtLeast("R1", "file-system-mutating call sites classified", nSites, 40)
 	c.AtLeast("R1", "publish sites onto object paths", nPub, 4)
 	objectPresenceRule(c, "R6", sf)
+	// a download interrupted by a kill is resumed from its partial temp file: the resume rules of C02 (file offset,
+	// hash state and resume offset stay in step; success implies the verified move) decide whether the object that
+	// is finally published is whole
+	c.RulePrefix = "C02/"
+	runC02(c)
+	c.RulePrefix = ""
 	c.Stat("mutating-sites", nSites)
 
 	// ---- R2: the published file was completely written and closed -----------------------------------
@@ -542,4 +547,17 @@ func objectPresenceRule(c *Ctx, rule string, sf *storeFlow) {
 		}
 	}
 	c.AtLeast(rule, "size-exact object presence tests", nExact, 3)
+}
+
+var storeFlowCache = map[*Prog]*storeFlow{}
+
+// getStoreFlow computes (once per loaded program) which parameters may carry an object-store path.
+func getStoreFlow(p *Prog) *storeFlow {
+	if sf, ok := storeFlowCache[p]; ok {
+		return sf
+	}
+	sf := &storeFlow{p: p}
+	sf.propagate()
+	storeFlowCache[p] = sf
+	return sf
 }
